@@ -176,7 +176,7 @@ def history(rng, case, idx):
     from pv.gen import World
     w = World(rng, case)
     w.populate()
-    weights = {'cc': 3, 'cp': 3, 'pc': 2, 'pp': 3, 'remove': 2, 'fill': 3, 'observe': 1, 'newc': 1}
+    weights = {'cc': 3, 'cp': 3, 'pc': 2, 'pp': 3, 'remove': 2, 'fill': 3, 'observe': 1, 'newc': 1, 'kept': 3}
     for _ in range(rng.randint(10, 35)):
         if rng.random() < 0.3:
             extra_ops(w)
